@@ -435,3 +435,84 @@ func TTL(r *kit.Rng) TTLCase {
 		return TTLCase{Multiple(r), "dur"}
 	}
 }
+
+/* ---------- numeric shapes ---------- */
+
+// Digits: a run of n decimal digits; leading zeros, all zeros and all nines are frequent.
+func Digits(r *kit.Rng, n int) string {
+	b := make([]byte, n)
+	switch r.Pick(5) {
+	case 0:
+		for i := range b {
+			b[i] = '0'
+		}
+	case 1:
+		for i := range b {
+			b[i] = '9'
+		}
+	default:
+		z := 0
+		if r.Chance(0.5) {
+			z = r.Pick(n + 1) // leading zeros
+		}
+		for i := range b {
+			if i < z {
+				b[i] = '0'
+			} else {
+				b[i] = byte('0' + r.Pick(10))
+			}
+		}
+	}
+	return string(b)
+}
+
+// NumericShapes: a value of a numeric flag (or any text holding a number) with one of its digit
+// runs reshaped: a decimal point followed by 1–70 digits, a run of 1–70 digits in its place,
+// leading zeros, one digit repeated many times, an exponent. A text without a digit gets a number
+// inserted somewhere.
+func NumericShapes(r *kit.Rng, text string) string {
+	type span struct{ a, b int }
+	var runs []span
+	for i := 0; i < len(text); {
+		if text[i] < '0' || text[i] > '9' {
+			i++
+			continue
+		}
+		j := i
+		for j < len(text) && text[j] >= '0' && text[j] <= '9' {
+			j++
+		}
+		runs = append(runs, span{i, j})
+		i = j
+	}
+	long := func() int {
+		if r.Chance(0.5) {
+			return 1 + r.Pick(70)
+		}
+		edges := []int{1, 2, 9, 10, 15, 16, 17, 18, 19, 20, 21, 22, 30, 38, 39, 40, 64, 65, 70}
+		return edges[r.Pick(len(edges))]
+	}
+	if len(runs) == 0 {
+		p := r.Pick(len(text) + 1)
+		return text[:p] + Digits(r, long()) + r.PickStr([]string{"", ".", "." + Digits(r, long())}) + text[p:]
+	}
+	s := runs[r.Pick(len(runs))]
+	pre, run, post := text[:s.a], text[s.a:s.b], text[s.b:]
+	switch r.Pick(8) {
+	case 0, 1: // a fraction after the run
+		return pre + run + "." + Digits(r, long()) + post
+	case 2: // a fraction in front of it
+		return pre + Digits(r, 1+r.Pick(3)) + "." + r.PickStr([]string{"", Digits(r, long())}) + run + post
+	case 3: // a long run in its place
+		return pre + Digits(r, long()) + post
+	case 4: // leading zeros
+		return pre + strings.Repeat("0", long()) + run + post
+	case 5: // one digit of the run many times
+		p := r.Pick(len(run))
+		return pre + run[:p] + strings.Repeat(run[p:p+1], long()) + run[p:] + post
+	case 6: // exponent forms
+		return pre + run + r.PickStr([]string{"e", "E", "e+", "e-", "E-", ".0e", "." + Digits(r, 1+r.Pick(25)) + "e"}) + Digits(r, 1+r.Pick(4)) + post
+	default: // a bare point, several points
+		return pre + run + r.PickStr([]string{".", "..", ".." + Digits(r, 2), "." + Digits(r, long()) + "." + Digits(r, 3)}) + post
+	}
+}
